@@ -7,7 +7,8 @@ From LV Require Import Base.Prelude Cfg.Grammar Earley.Spec Forest.ExplicitToTre
   Forest.ExplicitBuild Forest.ExplicitBuild_proofs Forest.ExplicitBuildCheck
   Earley.Alg Earley.Alg_proofs Forest.ExplicitAlgBuild Forest.ExplicitAlgBuild_proofs
   Earley.Dyn Earley.Dyn_proofs Forest.ExplicitDynBuild Forest.ExplicitDynSound Forest.ExplicitDynBuild_proofs
-  Forest.ExplicitDynFamilies_proofs Forest.ExplicitDynComplete_proofs.
+  Forest.ExplicitDynFamilies_proofs Forest.ExplicitDynComplete_proofs Forest.ExplicitDynExact_proofs
+  Forest.ExplicitGraph Forest.ExplicitGraphCheck Forest.ExplicitGraph_proofs Gen.ExplicitWalk Forest.ExplicitWalkTie.
 Import ListNotations.
 Local Open Scope string_scope.
 Local Open Scope list_scope.
@@ -279,9 +280,7 @@ Print Assumptions C04_A_dynamic_complete_partial.
      equality: for every family f logged under (s, start, k) there is a family f0 under the same label with the same
      (left, right) whose (rule, left, right) is logged under (s, start, j).
    Together with C04_A_dynamic_complete_partial (completions, empty rules) every add_family call site of the dynamic
-   parser is covered.  _partial: the assembly of these family-level facts into "every derivation tree over the
-   position graph is stored below the root" (C04_A_dynamic_exact_full_statement) is not done; the derivation oracle of
-   the acyclic / ignore / overlap streams compares exactly that with lark on every run. *)
+   parser is covered; the assembly into tree-level exactness is C04_A_dynamic_exact below. *)
 Theorem C04_A_dynamic_scan_complete G start n rmatch rtrunc complete_lex ignore :
   fwd rmatch rtrunc ->
   (forall k x t j,
@@ -303,6 +302,48 @@ Proof.
 Qed.
 Print Assumptions C04_A_dynamic_scan_complete.
 
+(* packed_dedup_safe: a node's packed children are a set under PackedNode equality, which compares (left, right) and
+   ignores the rule.  For families of the local form this loses nothing: label, left and right determine the rule (an
+   intermediate left child names it; without one the rule is the node's symbol -> the right child's symbol, or the
+   empty rule of the symbol).  Hence the carry-over, which copies node.children = the first family per (left, right),
+   copies every family. *)
+Theorem C04_A_packed_dedup_safe (G : grammar) tokedge ign lbl r1 r2 l rt :
+  dfam_ok G tokedge ign lbl (r1, l, rt) -> dfam_ok G tokedge ign lbl (r2, l, rt) -> r1 = r2.
+Proof. exact (packed_dedup_safe G tokedge ign lbl r1 r2 l rt). Qed.
+Print Assumptions C04_A_packed_dedup_safe.
+
+(* Tree-level exactness for the dynamic lexers (the former C04_A_dynamic_exact_full_statement, kept below, follows).
+   Over the run's own position graph - token edge (t, i, j) iff j is one of the ends xearley.scan explores for terminal
+   t at i (the regex engine's match; with complete_lex also the matches on its truncations, which is where finding F7
+   lives: the graph is what the scanner explores, not all matches), ignore edge iff an %ignore terminal matches -
+   the trees stored below the root (start, 0, n) of the model's forest are exactly the derivation trees of the start
+   symbol whose leaves are token edges and whose leaf spans, joined by ignore paths, tile 0..n.  The only hypothesis
+   is fwd (the engine returns no empty match); the outcome of the run is not assumed: a derivation tree forces
+   acceptance (C04_A_dynamic_complete).  Proof: the tree is walked left to right along Dyn's chart; an item waiting for
+   a terminal is carried along the ignore path in front of the token (every step copies the node's families:
+   C04_A_dynamic_scan_complete + packed_dedup_safe), the token family advances it; a non-terminal child is predicted
+   where the item stands, built recursively, and completed (C04_A_dynamic_complete_partial); the finished start item
+   is carried over the trailing ignore path. *)
+Theorem C04_A_dynamic_exact G start n rmatch rtrunc complete_lex ignore :
+  fwd rmatch rtrunc ->
+  forall ds,
+    den span (in_forest span (map span_fam (snd (idyn_parse G start n rmatch rtrunc complete_lex ignore))))
+        (NSym span start 0 n) ds
+    <-> exists d, ds = [d] /\ dwfd G (run_tokedge rmatch rtrunc complete_lex) d (NT start)
+                  /\ gtiles (run_tokedge rmatch rtrunc complete_lex) (ign_edge rmatch ignore) 0 n (yield span d).
+Proof. exact (idyn_forest_exact G start n rmatch rtrunc complete_lex ignore). Qed.
+Print Assumptions C04_A_dynamic_exact.
+
+Theorem C04_A_dynamic_complete G start n rmatch rtrunc complete_lex ignore d :
+  fwd rmatch rtrunc ->
+  dwfd G (run_tokedge rmatch rtrunc complete_lex) d (NT start) ->
+  gtiles (run_tokedge rmatch rtrunc complete_lex) (ign_edge rmatch ignore) 0 n (yield span d) ->
+  d_out (fst (idyn_parse G start n rmatch rtrunc complete_lex ignore)) = DAccept
+  /\ den span (in_forest span (map span_fam (snd (idyn_parse G start n rmatch rtrunc complete_lex ignore))))
+         (NSym span start 0 n) [d].
+Proof. intros Hf. exact (idyn_forest_complete G start n rmatch rtrunc complete_lex ignore Hf d). Qed.
+Print Assumptions C04_A_dynamic_complete.
+
 Definition C04_A_dynamic_exact_full_statement : Prop :=
   forall G start n rmatch rtrunc complete_lex ignore,
     fwd rmatch rtrunc ->
@@ -312,6 +353,26 @@ Definition C04_A_dynamic_exact_full_statement : Prop :=
           (NSym span start 0 n) ds
       <-> exists d, ds = [d] /\ dwfd G (run_tokedge rmatch rtrunc complete_lex) d (NT start)
                     /\ gtiles (run_tokedge rmatch rtrunc complete_lex) (ign_edge rmatch ignore) 0 n (yield span d).
+
+Theorem C04_A_dynamic_exact_closed : C04_A_dynamic_exact_full_statement.
+Proof. intros G start n rmatch rtrunc complete_lex ignore Hf _. exact (idyn_forest_exact G start n rmatch rtrunc complete_lex ignore Hf). Qed.
+Print Assumptions C04_A_dynamic_exact_closed.
+
+(* fwd is needed.  start: E A | A with E matching the empty string at 0 and A matching 0..1, text of length 1: the
+   position graph has the token edge (E, 0, 0), the tree start(E@0..0, A@0..1) is a derivation over the graph that
+   tiles 0..1, the run accepts (through start: A) - and the tree is not stored: delayed_matches[0] is never read once
+   column 0 exists.  lark raises GrammarError for zero-width terminals under the dynamic lexers. *)
+Theorem C04_A_dynamic_exact_fwd_refuted :
+  let G := [fx_r1; fx_r2] in
+  let rt := fun _ _ _ : nat => @None nat in
+  let run := idyn_parse G 0 1 fx_rm rt false [] in
+  ~ fwd fx_rm rt
+  /\ d_out (fst run) = DAccept
+  /\ dwfd G (run_tokedge fx_rm rt false) fx_d (NT 0)
+  /\ gtiles (run_tokedge fx_rm rt false) (ign_edge fx_rm []) 0 1 (yield span fx_d)
+  /\ ~ den span (in_forest span (map span_fam (snd run))) (NSym span 0 0 1) [fx_d].
+Proof. exact dyn_exact_fwd_refuted. Qed.
+Print Assumptions C04_A_dynamic_exact_fwd_refuted.
 
 (* non-vacuity: start: X with %ignore " " on "x " (terminal 0 = X matches 0..1, terminal 1 = the ignored blank matches
    1..2): accepted; the family of (start, 0, 1) is copied to (start, 0, 2) by the carry-over; all families have the
@@ -325,6 +386,108 @@ Example C04_A_dynamic_example :
               (NSym nat 0 0 2, (mkRule 0 [T 0], None, Some (NTok nat 0 0 0 1)))]
   /\ forallb (dfam_okb [mkRule 0 [T 0]] [(0, 0, 1)] [(1, 2)]) (snd r) = true.
 Proof. repeat split; vm_compute; reflexivity. Qed.
+
+(* ... and by exactness the one tree start(X@0..1) is stored below the root (start, 0, 2), the trailing blank being
+   absorbed by the carry-over of the finished start item *)
+Lemma exD_fwd : fwd exD_rm (fun _ _ _ => None).
+Proof.
+  split; [|intros; discriminate].
+  intros [|[|t]] [|[|i]] j H; simpl in H; inversion H; auto.
+Qed.
+Example C04_A_dynamic_exact_example :
+  let G := [mkRule 0 [T 0]] in
+  let run := idyn_parse G 0 2 exD_rm (fun _ _ _ => None) false [1] in
+  forall ds, den span (in_forest span (map span_fam (snd run))) (NSym span 0 0 2) ds
+             <-> ds = [DN span (mkRule 0 [T 0]) [DL span 0 (0, 1)]].
+Proof.
+  cbv zeta. intros ds. rewrite (C04_A_dynamic_exact _ _ _ _ _ _ _ exD_fwd). split.
+  - intros (d & -> & Hw & Ht). f_equal.
+    destruct d as [t x|r ks]; [apply dwfd_leaf_inv in Hw; destruct Hw; discriminate|].
+    apply dwfd_node_inv in Hw. destruct Hw as (_ & [<- |[]] & HF). cbn [rhs] in HF.
+    destruct ks as [|k [|k2 ks]]; [inversion HF| |inversion HF as [|? ? ? ? ? HF2]; inversion HF2]. f_equal.
+    assert (Hk : dwfd [mkRule 0 [T 0]] (run_tokedge exD_rm (fun _ _ _ => None) false) k (T 0)) by (inversion HF; auto).
+    destruct k as [t [m e]|r ks]; [|apply dwfd_node_inv in Hk; destruct Hk; discriminate].
+    apply dwfd_leaf_inv in Hk. destruct Hk as (Et & He). inversion Et. subst t. cbn [fst snd] in He.
+    unfold run_tokedge in He. rewrite ends_spec in He.
+    destruct He as (e0 & Hm & [-> |(Hc & _)]); [|discriminate].
+    destruct m as [|[|m]]; simpl in Hm; inversion Hm. reflexivity.
+  - intros ->. eexists. split; [reflexivity|]. split.
+    + apply (dwfd_node _ _ (mkRule 0 [T 0])); [left; reflexivity|]. repeat constructor; unfold run_tokedge; vm_compute; auto.
+    + simpl. apply gt_cons with (m := 0) (e := 1); [constructor|exists 0; unfold run_tokedge; vm_compute; auto|].
+      constructor. apply gap_step with (m := 2); [|constructor]. exists 1. split; [left; reflexivity|reflexivity].
+Qed.
+
+(* Layer B on cyclic forests (cyclic grammars).  Forest/ExplicitGraph.v models the explicit-mode walk of
+   ForestToParseTree on the SPPF as a numbered graph: a child already on the path is not entered (on_cycle), a packed
+   node is kept iff both children are kept, a symbol / intermediate node iff one of its packed children is, once the
+   left child is not kept the right one contributes nothing (it is entered in retreat), and the transformation of a kept
+   packed node is cached by identity and reused under other paths.  The model computes the kept part as an acyclic
+   forest (gunfold) and the tree as to_tree_explicit of it; lark's tree is compared with it exactly on every cyclic
+   forest of the streams cyclic-corpus / cyclic.
+   C04_B_cyclic_sound: for a graph of the local form gwfb (evaluated on every exported graph), the kept part is a
+   well-formed forest (root_okb), so C04_B_expand_exact applies to it - the alternatives of the returned tree are exactly
+   the shapes of the derivations of the kept part - and each of those is a finite unfolding of the graph (gder): every
+   returned alternative is the shape of a derivation stored in the forest, which by C04_A_sound tiles the input.
+   C04_B_cyclic_total: the model's fuel |g| + 1 always suffices (the path is duplicate-free); termination of the coded
+   loop for any callbacks is C20_visit_terminates / C20_loop_eq_rec. *)
+Theorem C04_B_cyclic_sound g root nd :
+  gwfb g = true -> groot_okb g root = true -> gunfold g root = Some (Some nd) ->
+  root_okb nd = true
+  /\ (forall t, In t (expand (to_tree_explicit nd)) <-> In t (map shape (derivs nd)))
+  /\ (forall d, In d (derivs nd) -> gder g root [d]).
+Proof. intros Hw. exact (graph_explicit_sound g Hw root nd). Qed.
+Print Assumptions C04_B_cyclic_sound.
+
+Theorem C04_B_cyclic_total g root : gwfb g = true -> root < length g -> gunfold g root <> None.
+Proof. intros Hw. exact (gunfold_total g Hw root). Qed.
+Print Assumptions C04_B_cyclic_total.
+
+(* What is kept on a cyclic forest is not "the derivations in which no node repeats on a path" (sder), in either
+   direction, and depends on the order of the alternatives: the packed-node cache is filled under the path of the first
+   visit and reused under other paths.  Witnesses (forests lark builds on "a", exported by the harness; stream
+   cyclic-corpus compares lark's trees with cx_tree / cx_tree2 through the model):
+     start: a | x   a: x | A   x: y   y: a | A    3 alternatives; start(x(y(a))) repeats no node and is lost
+     start: x | a   (same otherwise)              5 alternatives; start(a(x(y(a)))) passes through a twice and is kept
+   Soundness is not affected (C04_B_cyclic_sound); the property claims exactness for acyclic grammars only. *)
+Definition C04_B_cyclic_cycle_free_exact_full_statement : Prop :=
+  forall g root nd, gwfb g = true -> groot_okb g root = true -> gunfold g root = Some (Some nd) ->
+    forall d, In d (derivs nd) <-> sder g [] root [d].
+
+Theorem C04_B_cyclic_cycle_free_exact_refuted :
+  (gwfb cx_g = true /\ groot_okb cx_g 0 = true /\
+   exists nd, gunfold cx_g 0 = Some (Some nd) /\ to_tree_explicit nd = cx_tree /\ length (derivs nd) = 3 /\
+              sder cx_g [] 0 [cx_lost] /\ ~ In cx_lost (derivs nd))
+  /\
+  (gwfb cx_g2 = true /\ groot_okb cx_g2 0 = true /\
+   exists nd, gunfold cx_g2 0 = Some (Some nd) /\ to_tree_explicit nd = cx_tree2 /\ length (derivs nd) = 5 /\
+              In cx_pumped (derivs nd) /\ ~ sder cx_g2 [] 0 [cx_pumped]).
+Proof. exact cyclic_kept_is_order_dependent. Qed.
+Print Assumptions C04_B_cyclic_cycle_free_exact_refuted.
+
+(* Tie by regeneration.  translator/gen_explicit.py pins, by fail-closed source templates, the bodies of
+   ForestToParseTree.on_cycle, _check_cycle, visit_symbol_node_in, visit_packed_node_in / _out, transform_symbol_node,
+   transform_intermediate_node, transform_packed_node, _call_ambig_func, _collapse_ambig, visit, of
+   ForestTransformer._visit_node_out_helper and of PackedData.__init__, and regenerates their conditions into
+   Gen/ExplicitWalk.v on every run.  The conditions the hand models build in are equal to the regenerated ones: for the
+   walk over cyclic forests (Forest/ExplicitGraph.v) and for the tree construction (Forest/ExplicitToTree.v). *)
+Theorem C04_walk_conditions_are_source :
+  on_cycle_sets_retreat = true
+  /\ retreat_stops false false = false
+  /\ (forall c, retreat_stops c true = true)
+  /\ (forall r, sym_in_skips r = r)
+  /\ (forall ps, packed_in_visits false ps = true)
+  /\ (forall cached, packed_in_uncached true cached = negb cached)
+  /\ (forall r, packed_out_marks r = negb r).
+Proof. exact walk_conditions_are_source. Qed.
+Print Assumptions C04_walk_conditions_are_source.
+
+Theorem C04_tree_conditions_are_source :
+  iambig_above = 1 /\ ambig_above = 1
+  /\ (forall x, call_ambig [x] = x)
+  /\ (forall x y l, call_ambig (x :: y :: l) = Nd AMBIG (x :: y :: l))
+  /\ (forall li ll, left_spliced li ll = li && ll).
+Proof. exact tree_conditions_are_source. Qed.
+Print Assumptions C04_tree_conditions_are_source.
 
 (* Non-vacuity: the forest lark builds for
      start: _i q _i     _i: A | A A     ?q: A? "a"     A: "a"          on "aaaa" (dynamic lexer)
